@@ -12,14 +12,22 @@
 (* Checked for every step: the method called is the one alloc_frame's          *)
 (* if/elif chain selects in the model state, the element taken is in the       *)
 (* model's work list, and the model's state after the same operator equals     *)
-(* the recorded projection (TraceConforms); all invariants of IRC.tla hold      *)
+(* the recorded projection (TraceConforms, InitConforms, StepConforms: the      *)
+(* code IS the modelled algorithm on this run); all invariants of IRC.tla hold  *)
 (* along the replay.                                                           *)
+(* Only part of this is the property C06: a harmless change of a heuristic      *)
+(* (coalescing test, spill choice, work-list order) makes the run leave the     *)
+(* model without endangering any value.  `unsafe' marks the deviations that do: *)
+(* a node given a register that overlaps a neighbour's or is outside its class, *)
+(* and a move coalesced although its ends interfere.  The engine reports        *)
+(* SafeSteps / TInvProperColouring / TInvEdgesPreserved as violations and the   *)
+(* other clauses as model deviations (notes).                                   *)
 EXTENDS IRC, Json, IOUtils
 
 Cases == JsonDeserialize(IOEnv.TRACE_FILE)
 NChunks == 16
-VARIABLES chunk, f, l, s, why, inst
-vars == <<chunk, f, l, s, why, inst>>
+VARIABLES chunk, f, l, s, why, unsafe, inst
+vars == <<chunk, f, l, s, why, unsafe, inst>>
 NoState == [err |-> ""]
 
 SeqSet(q) == {q[k] : k \in 1..Len(q)}
@@ -38,11 +46,11 @@ Agrees(p, withStack) ==
     /\ s.wlMoves = SeqSet(p.wl) /\ s.active = SeqSet(p.active) /\ s.coalesced = SeqSet(p.coalesced)
     /\ s.constrained = SeqSet(p.constrained) /\ s.frozen = SeqSet(p.frozen)
 
-Init == chunk = 0 /\ f = 0 /\ l = 0 /\ s = NoState /\ why = "" /\ inst = [N |-> 0]
-PickChunk == chunk = 0 /\ chunk' \in 1..NChunks /\ UNCHANGED <<f, l, s, why, inst>>
+Init == chunk = 0 /\ f = 0 /\ l = 0 /\ s = NoState /\ why = "" /\ unsafe = FALSE /\ inst = [N |-> 0]
+PickChunk == chunk = 0 /\ chunk' \in 1..NChunks /\ UNCHANGED <<f, l, s, why, unsafe, inst>>
 PickCase  == /\ chunk > 0 /\ f = 0 /\ f' \in {k \in 1..Len(Cases) : k % NChunks = chunk - 1}
              /\ \E i0 \in {Inst(Cases[f'].inst)} : inst' = i0 /\ s' = InitState(i0)
-             /\ UNCHANGED <<chunk, l, why>>
+             /\ UNCHANGED <<chunk, l, why, unsafe>>
 
 \* what alloc_frame's loop does next in the model state
 Chosen == IF s.simplifyWL # {} THEN "simplify" ELSE IF s.wlMoves # {} THEN "coalesc"
@@ -50,15 +58,18 @@ Chosen == IF s.simplifyWL # {} THEN "simplify" ELSE IF s.wlMoves # {} THEN "coal
 
 RECURSIVE AssignAll(_, _, _)
 AssignAll(st, as, k) ==          \* replay assign_colors over the recorded (node, register) list
-    IF k > Len(as) THEN [s |-> st, why |-> IF Len(st.stack) = 0 THEN "" ELSE "assign_colors left nodes on the stack"]
-    ELSE IF Len(st.stack) = 0 THEN [s |-> st, why |-> "assign_colors coloured more nodes than the stack holds"]
+    IF k > Len(as) THEN [s |-> st, bad |-> FALSE,
+                         why |-> IF Len(st.stack) = 0 THEN "" ELSE "assign_colors left nodes on the stack"]
+    ELSE IF Len(st.stack) = 0 THEN [s |-> st, bad |-> FALSE, why |-> "assign_colors coloured more nodes than the stack holds"]
     ELSE LET n == st.stack[Len(st.stack)]
              lab == CHOOSE x \in NodesOf(I) : st.rep[x] = n /\ \A y \in NodesOf(I) : st.rep[y] = n => x <= y
              ok == OkRegs(I, st)
              r == as[k][2]
-         IN IF lab # as[k][1] THEN [s |-> st, why |-> "assign_colors visits another node than the stack top"]
-            ELSE IF r = 0 /\ ok # {} THEN [s |-> st, why |-> "node spilled although a register was free"]
-            ELSE IF r # 0 /\ r \notin ok THEN [s |-> st, why |-> "node got a register that is taken by a neighbour or not of its class"]
+         IN IF lab # as[k][1] THEN [s |-> st, bad |-> FALSE, why |-> "assign_colors visits another node than the stack top"]
+            ELSE IF r = 0 /\ ok # {} THEN [s |-> st, bad |-> FALSE, why |-> "node spilled although a register was free"]
+            ELSE IF r # 0 /\ r \notin ok
+                 THEN [s |-> st, bad |-> TRUE,
+                       why |-> "node got a register that overlaps a neighbour's register or is not of its class"]
             ELSE AssignAll(AssignOne(I, st, r), as, k + 1)
 
 Ev == Cases[f].steps[l + 1]
@@ -66,6 +77,9 @@ InNodes(x) == x >= 1 /\ x <= I.N
 Step ==
     /\ f > 0 /\ why = "" /\ s.err = "" /\ l < Len(Cases[f].steps)
     /\ l' = l + 1 /\ UNCHANGED <<chunk, f, inst>>
+    /\ unsafe' = (\/ (Ev.ev = "assign_colors" /\ AssignAll(s, Ev.assign, 1).bad)
+                  \/ (/\ Ev.ev = "coalesc" /\ Ev.x \in s.wlMoves /\ Ev.x \in SeqSet(Ev.post.coalesced)
+                      /\ CoalesceOutcome(I, s, Ev.x) = "constrained"))
     /\ IF Ev.ev # Chosen THEN why' = "the code called " \o Ev.ev \o " where its loop selects " \o Chosen /\ s' = s
        ELSE IF Ev.ev = "simplify" THEN
                IF InNodes(Ev.x) /\ s.rep[Ev.x] \in s.simplifyWL
@@ -85,7 +99,9 @@ Step ==
        ELSE \E res \in {AssignAll(s, Ev.assign, 1)} : s' = res.s /\ why' = res.why
 Next == PickChunk \/ PickCase \/ Step
 
-\* ---- conformance ----
+\* ---- the part that is the property ----
+SafeSteps == ~unsafe
+\* ---- conformance to the modelled algorithm ----
 TraceConforms == why = ""
 InitConforms  == (f > 0 /\ l = 0) => Agrees(Cases[f].init, TRUE)
 StepConforms  == (f > 0 /\ l > 0 /\ why = "" /\ s.err = "") =>
